@@ -804,6 +804,64 @@ def r16_l(prog: Program, chk: Check) -> None:
     chk.ob("R16.l", "signature::too-many-positional-args-fix::no-crash", not crashes, site, f"{len(crashes)} crashes" + (f"; first: {crashes[0]}" if crashes else ""), witness=crashes[:3])
 
 
+# ------------------------------------------------------------------- R16.m
+R16M_SOURCES = (
+    "x = 1\ny = 2\n",
+    "def f():\n    x = g(1,\n          2)\n    return x\n",
+    "def f():\n    x = g(\n        1,\n    )\n    return x\n",
+    "def f():\n    x = g(1,\n2)\n    return x\n",  # the continuation line starts in column 0
+    'def f(v):\n    y = """\n%s\n""" % v\n    return y\n',  # a triple-quoted string that closes in column 0, with a tail
+    'def f(v):\n    y = """\n    %s\n    """\n    return y\n',
+    "def f():\n    x = [\n        1,\n    ]\n\n    y = 2\n",
+    "def f():\n    x = (1 +\n         2)\n    # comment\n    return x\n",
+    "def f():\n    if a:\n        x = g(1,\n              2)\n    else:\n        x = 3\n",
+    "x = {\n    1: 2,\n}\n",
+    "def f():\n    x = g(1, 2); y = 3\n    return x\n",
+)
+
+
+def r16_m(prog: Program, chk: Check) -> None:
+    from ..minterp import AssertionFailed, Interp, ModelError, Obj, PyRaise, Unsupported
+
+    chk.rule(
+        "R16.m",
+        "the lines a statement occupies are the lines the parser says it occupies, as a finite model: analysis_lib.get_line_range_for_node (with get_indentation) is interpreted "
+        "from its AST on every simple statement of 11 real sources - one-line statements, calls and displays continued over several lines with the closing bracket at any indent, a "
+        "continuation line in column 0, triple-quoted strings that close in column 0 with and without a tail, statements followed by a blank line, a comment, another statement: the "
+        "range equals node.lineno .. node.end_lineno. These are the lines a fix deletes before it writes the replacement; a line too few leaves the rest of the old statement in "
+        "the file (a syntax error), a line too many deletes the next statement",
+        floor=2,
+    )
+    fn = prog.func("analysis_lib", "get_line_range_for_node")
+    gi = prog.func("analysis_lib", "get_indentation")
+    wrong, crashes = [], []
+    n = 0
+    for src in R16M_SOURCES:
+        tree = ast.parse(src)
+        lines = [l + "\n" for l in src.split("\n")[:-1]]
+        for node in ast.walk(tree):
+            if not isinstance(node, (ast.Assign, ast.Return, ast.Expr, ast.AugAssign)):
+                continue
+            n += 1
+            it = Interp({}, {}, (), {}, None, {}, {"get_indentation": gi}, {"ast": ast, "__native_getattr__": True})
+            d = {"source": src, "statement": ast.unparse(node)[:40], "lines by the parser": [node.lineno, node.end_lineno]}
+            try:
+                r = it.call_def(fn, [node, list(lines)], fn)
+            except Unsupported as u:
+                raise AnchorError(f"get_line_range_for_node cannot be modelled: {u}")
+            except (AssertionFailed, PyRaise, ModelError) as e:
+                crashes.append({**d, "error": str(e)})
+                continue
+            want = list(range(node.lineno, (node.end_lineno or node.lineno) + 1))
+            if list(r) != want:
+                wrong.append({**d, "lines by get_line_range_for_node": [min(r), max(r)] if r else []})
+    chk.model_evaluations += n
+    site = prog.site("analysis_lib", fn)
+    wrong.sort(key=lambda x: len(x["source"]))
+    chk.ob("R16.m", "analysis_lib::get_line_range_for_node::the range is lineno .. end_lineno", not wrong, site, f"{n} statements, {len(wrong)} with another range" + (f"; smallest: {wrong[0]}" if wrong else ""), witness=wrong[:5])
+    chk.ob("R16.m", "analysis_lib::get_line_range_for_node::no-crash", not crashes, site, f"{len(crashes)} crashes" + (f"; first: {crashes[0]}" if crashes else ""), witness=crashes[:3])
+
+
 def run(prog: Program, chk: Check) -> None:
     guard(chk, r16_c, prog, chk)
     guard(chk, r16_e, prog, chk)
@@ -813,3 +871,4 @@ def run(prog: Program, chk: Check) -> None:
     guard(chk, r16_j, prog, chk)
     guard(chk, r16_k, prog, chk)
     guard(chk, r16_l, prog, chk)
+    guard(chk, r16_m, prog, chk)
